@@ -148,7 +148,7 @@ Qed.
 
 Lemma purge_inv : forall c s, Inv c s -> Inv c (purge c s).
 Proof.
-  intros c s I. destruct I. constructor; cbn [purge ops srs hb stat a_ops a_srs sto dep_ck now ticker holdw writing]; auto.
+  intros c s I. destruct I. constructor; cbn [purge ops srs hb stat a_ops a_srs sto dep_ck now ticker holdw writing pick]; auto.
   - apply sorted_filter; assumption.
   - apply sorted_filter; assumption.
   - intros n Hn. apply filter_In in Hn. destruct Hn as [Hn Hd]. apply negb_true_iff in Hd.
@@ -159,6 +159,44 @@ Proof.
     apply filter_In. split; [exact He|]. apply negb_true_iff. eapply is_dead_false; eauto.
 Qed.
 
+(* ---------------------------------------------------------------- the choice of the assembly *)
+Lemma sortedb_sorted : forall l, sortedb l = true -> sorted l.
+Proof.
+  intros l H. apply Sorted_StronglySorted; [intros x y z; apply N.lt_trans|].
+  induction l as [|x t IH]; [constructor|]. cbn [sortedb] in H. destruct t as [|y t'].
+  - constructor; constructor.
+  - apply andb_true_iff in H. destruct H as [H1 H2]. constructor; [apply IH, H2 | constructor; apply N.ltb_lt, H1].
+Qed.
+
+Lemma admissible_spec : forall w reg chosen, admissible w reg chosen = true ->
+  sorted chosen /\ length chosen = w /\ forall n, In n chosen -> In n reg.
+Proof.
+  intros w reg chosen H. unfold admissible in H. apply andb_true_iff in H. destruct H as [H H3].
+  apply andb_true_iff in H. destruct H as [H1 H2].
+  split; [apply sortedb_sorted, H1|]. split; [apply PeanoNat.Nat.eqb_eq, H2|].
+  intros n Hn. rewrite forallb_forall in H3. apply mem_In, H3, Hn.
+Qed.
+
+(* whatever the choice input is, the nodes chosen are WorkerCount distinct registered ones, in ascending order *)
+Lemma choose_ops_spec : forall c s, sorted (ops s) -> (wc c <= length (ops s))%nat ->
+  sorted (choose_ops c s) /\ length (choose_ops c s) = wc c /\ forall n, In n (choose_ops c s) -> In n (ops s).
+Proof.
+  intros c s So Ho. unfold choose_ops.
+  assert (D : sorted (firstn (wc c) (ops s)) /\ length (firstn (wc c) (ops s)) = wc c /\ forall n, In n (firstn (wc c) (ops s)) -> In n (ops s)).
+  { split; [apply sorted_firstn, So|]. split; [apply firstn_length_le, Ho | intros n; apply In_firstn]. }
+  destruct (pick s) as [[co cr]|]; [|exact D].
+  destruct (admissible (wc c) (ops s) co) eqn:A; [apply admissible_spec, A | exact D].
+Qed.
+Lemma choose_srs_spec : forall c s, sorted (srs s) -> (wc c <= length (srs s))%nat ->
+  sorted (choose_srs c s) /\ length (choose_srs c s) = wc c /\ forall n, In n (choose_srs c s) -> In n (srs s).
+Proof.
+  intros c s So Ho. unfold choose_srs.
+  assert (D : sorted (firstn (wc c) (srs s)) /\ length (firstn (wc c) (srs s)) = wc c /\ forall n, In n (firstn (wc c) (srs s)) -> In n (srs s)).
+  { split; [apply sorted_firstn, So|]. split; [apply firstn_length_le, Ho | intros n; apply In_firstn]. }
+  destruct (pick s) as [[co cr]|]; [|exact D].
+  destruct (admissible (wc c) (srs s) cr) eqn:A; [apply admissible_spec, A | exact D].
+Qed.
+
 Lemma start_begin_inv : forall c s, Inv c s -> stat s <> Running ->
   (wc c <= length (ops s))%nat -> (wc c <= length (srs s))%nat -> Inv c (fst (start_begin c s)).
 Proof.
@@ -167,11 +205,8 @@ Proof.
   - destruct i_sto0 as [A B]. split; [exact A|]. destruct (q_keep_pending (qk c)); [exact B|].
     destruct (pend (sto s)) as [p0|] eqn:P0; [|intros; discriminate].
     destruct (q_keep_savepoint (qk c) && p_sp p0); [exact B | intros; discriminate].
-  - intros _. repeat split.
-    + apply firstn_length_le. exact Ho.
-    + apply firstn_length_le. exact Hr.
-    + apply sorted_firstn. assumption.
-    + apply sorted_firstn. assumption.
+  - intros _. destruct (choose_ops_spec c s i_sops0 Ho) as [A1 [A2 _]]. destruct (choose_srs_spec c s i_ssrs0 Hr) as [B1 [B2 _]].
+    repeat split; assumption.
   - intros H. right. rewrite H. reflexivity.
   - intros [H H2]. rewrite H. destruct (pend (sto s)) as [p0|]; [|intros; discriminate].
     rewrite H2. cbn [andb]. intros; discriminate.
@@ -187,14 +222,14 @@ Proof. intros t. unfold tk_stop. destruct (t =? 0); discriminate. Qed.
 
 Lemma set_stat_inv : forall c s, Inv c s -> stat s <> Init -> Inv c (set_stat s Paused).
 Proof.
-  intros c s I Hn. destruct I. constructor; cbn [set_stat ops srs hb stat a_ops a_srs sto dep_ck now ticker holdw writing]; auto.
+  intros c s I Hn. destruct I. constructor; cbn [set_stat ops srs hb stat a_ops a_srs sto dep_ck now ticker holdw writing pick]; auto.
   - intros H. right. destruct (i_spl0 H) as [E|E]; [contradiction | exact E].
   - intros _. split; [intros T; exfalso; eapply tk_stop_ne1; eauto | discriminate].
 Qed.
 
 Lemma go_running_inv : forall c s, Inv c s -> stat s <> Init -> Inv c (go_running c s).
 Proof.
-  intros c s I Hn. destruct I. constructor; cbn [go_running ops srs hb stat a_ops a_srs sto dep_ck now ticker holdw writing]; auto.
+  intros c s I Hn. destruct I. constructor; cbn [go_running ops srs hb stat a_ops a_srs sto dep_ck now ticker holdw writing pick]; auto.
   - intros H. right. destruct (i_spl0 H) as [E|E]; [contradiction | exact E].
   - intros Q. unfold tk_arm. rewrite Q. split; reflexivity.
 Qed.
@@ -250,9 +285,9 @@ Lemma with_sto_inv : forall c s so h w,
   splitters so = splitters (sto s) ->
   (q_keep_pending (qk c) = false /\ q_keep_savepoint (qk c) = false -> forall p, pend so = Some p -> map fst (p_ops p) = a_ops s /\ map fst (p_srs p) = a_srs s) ->
   (w <> 0 -> w <= ctr so /\ forall p, pend so = Some p -> w < ctr so) ->
-  Inv c (MkSt (now s) (ops s) (srs s) (hb s) (stat s) (a_ops s) (a_srs s) (dep_ck s) so (ticker s) h w).
+  Inv c (MkSt (now s) (ops s) (srs s) (hb s) (stat s) (a_ops s) (a_srs s) (dep_ck s) so (ticker s) h w (pick s)).
 Proof.
-  intros c s so h w I A B C D E. destruct I. constructor; cbn [ops srs hb stat a_ops a_srs sto dep_ck now ticker holdw writing]; auto.
+  intros c s so h w I A B C D E. destruct I. constructor; cbn [ops srs hb stat a_ops a_srs sto dep_ck now ticker holdw writing pick]; auto.
   intros H. rewrite C. auto.
 Qed.
 
@@ -369,10 +404,10 @@ Qed.
 (* [pre c s o] is the state on which evaluateClusterStatus runs in step [o] (None: the step evaluates nothing) *)
 Definition pre (c : cfg) (s : st) (o : op) : option st :=
   match o with
-  | ORegOp n => Some (MkSt (now s) (ins n (ops s)) (srs s) (hb_set (true, n) (now s) (hb s)) (stat s) (a_ops s) (a_srs s) (dep_ck s) (sto s) (ticker s) (holdw s) (writing s))
-  | ORegSr n => Some (MkSt (now s) (ops s) (ins n (srs s)) (hb_set (false, n) (now s) (hb s)) (stat s) (a_ops s) (a_srs s) (dep_ck s) (sto s) (ticker s) (holdw s) (writing s))
-  | ODeregOp n => Some (MkSt (now s) (rem n (ops s)) (srs s) (hb s) (stat s) (a_ops s) (a_srs s) (dep_ck s) (sto s) (ticker s) (holdw s) (writing s))
-  | ODeregSr n => Some (MkSt (now s) (ops s) (rem n (srs s)) (hb s) (stat s) (a_ops s) (a_srs s) (dep_ck s) (sto s) (ticker s) (holdw s) (writing s))
+  | ORegOp n => Some (MkSt (now s) (ins n (ops s)) (srs s) (hb_set (true, n) (now s) (hb s)) (stat s) (a_ops s) (a_srs s) (dep_ck s) (sto s) (ticker s) (holdw s) (writing s) (pick s))
+  | ORegSr n => Some (MkSt (now s) (ops s) (ins n (srs s)) (hb_set (false, n) (now s) (hb s)) (stat s) (a_ops s) (a_srs s) (dep_ck s) (sto s) (ticker s) (holdw s) (writing s) (pick s))
+  | ODeregOp n => Some (MkSt (now s) (rem n (ops s)) (srs s) (hb s) (stat s) (a_ops s) (a_srs s) (dep_ck s) (sto s) (ticker s) (holdw s) (writing s) (pick s))
+  | ODeregSr n => Some (MkSt (now s) (ops s) (rem n (srs s)) (hb s) (stat s) (a_ops s) (a_srs s) (dep_ck s) (sto s) (ticker s) (holdw s) (writing s) (pick s))
   | OFin ok => match stat s with
                | Starting => Some (if ok then go_running c s else set_stat s Paused)
                | _ => None
@@ -409,12 +444,13 @@ Proof.
   - destruct (ack_sr (sto s) n id) as [[so r] pub]. unfold after_ack. destruct (holdw s && negb (pub =? 0)); cbn; auto 10.
   - destruct (writing s =? 0); cbn; auto 10.
   - destruct (writing s =? 0); cbn; auto 10.
+  - cbn. auto 10.
 Qed.
 
 Lemma pre_inv : forall c s o s1, Inv c s -> pre c s o = Some s1 -> Inv c s1.
 Proof.
   intros c s o s1 I H. destruct o; cbn [pre] in H; try discriminate.
-  - inversion H; subst; clear H. destruct I. constructor; cbn [ops srs hb stat a_ops a_srs sto dep_ck now ticker holdw writing]; auto.
+  - inversion H; subst; clear H. destruct I. constructor; cbn [ops srs hb stat a_ops a_srs sto dep_ck now ticker holdw writing pick]; auto.
     + apply sorted_ins; assumption.
     + intros m Hm. apply In_ins in Hm. destruct (N.eq_dec m n) as [->|Hne].
       * exists ((true, n), now s). split; [apply In_hb_set; left; reflexivity | reflexivity].
@@ -422,7 +458,7 @@ Proof.
         apply In_hb_set. right. split; [exact He|]. rewrite Hk. intros X; inversion X; contradiction.
     + intros m Hm. destruct (i_hbr0 m Hm) as [e [He Hk]]. exists e. split; [|exact Hk].
       apply In_hb_set. right. split; [exact He|]. rewrite Hk. discriminate.
-  - inversion H; subst; clear H. destruct I. constructor; cbn [ops srs hb stat a_ops a_srs sto dep_ck now ticker holdw writing]; auto.
+  - inversion H; subst; clear H. destruct I. constructor; cbn [ops srs hb stat a_ops a_srs sto dep_ck now ticker holdw writing pick]; auto.
     + apply sorted_ins; assumption.
     + intros m Hm. destruct (i_hbo0 m Hm) as [e [He Hk]]. exists e. split; [|exact Hk].
       apply In_hb_set. right. split; [exact He|]. rewrite Hk. discriminate.
@@ -430,10 +466,10 @@ Proof.
       * exists ((false, n), now s). split; [apply In_hb_set; left; reflexivity | reflexivity].
       * destruct Hm as [->|Hm]; [contradiction|]. destruct (i_hbr0 m Hm) as [e [He Hk]]. exists e. split; [|exact Hk].
         apply In_hb_set. right. split; [exact He|]. rewrite Hk. intros X; inversion X; contradiction.
-  - inversion H; subst; clear H. destruct I. constructor; cbn [ops srs hb stat a_ops a_srs sto dep_ck now ticker holdw writing]; auto.
+  - inversion H; subst; clear H. destruct I. constructor; cbn [ops srs hb stat a_ops a_srs sto dep_ck now ticker holdw writing pick]; auto.
     + apply sorted_filter; assumption.
     + intros m Hm. apply In_rem in Hm. apply i_hbo0, Hm.
-  - inversion H; subst; clear H. destruct I. constructor; cbn [ops srs hb stat a_ops a_srs sto dep_ck now ticker holdw writing]; auto.
+  - inversion H; subst; clear H. destruct I. constructor; cbn [ops srs hb stat a_ops a_srs sto dep_ck now ticker holdw writing pick]; auto.
     + apply sorted_filter; assumption.
     + intros m Hm. apply In_rem in Hm. apply i_hbr0, Hm.
   - destruct (stat s) eqn:E; try discriminate. inversion H; subst; clear H.
@@ -470,7 +506,7 @@ Proof.
     + destruct (ack_op (sto s) n id) as [[so r] pub] eqn:A. apply after_ack_inv; [exact I|]. eapply ack_op_facts; eauto.
     + destruct (ack_sr (sto s) n id) as [[so r] pub] eqn:A. apply after_ack_inv; [exact I|]. eapply ack_sr_facts; eauto.
     + destruct (writing s =? 0) eqn:W; [|exact I]. cbn [fst].
-      destruct I. constructor; cbn [ops srs hb stat a_ops a_srs sto dep_ck now ticker holdw writing]; auto.
+      destruct I. constructor; cbn [ops srs hb stat a_ops a_srs sto dep_ck now ticker holdw writing pick]; auto.
       intros X. exfalso. apply X. reflexivity.
     + destruct (writing s =? 0) eqn:W; [exact I|]. cbn [fst]. apply N.eqb_neq in W.
       pose proof (i_sto _ _ I) as [A B]. destruct (i_wr _ _ I W) as [W1 W2].
@@ -482,6 +518,7 @@ Proof.
       * apply with_sto_inv; auto.
         -- apply (i_pnd _ _ I).
         -- intros X. exfalso. apply X. reflexivity.
+    + cbn [fst]. destruct I. constructor; cbn [ops srs hb stat a_ops a_srs sto dep_ck now ticker holdw writing pick]; auto.
 Qed.
 
 Lemma run_fst_app : forall c l s, fst (run c s l) = fold_left (fun s o => fst (step c s o)) l s.
@@ -544,12 +581,12 @@ Proof.
   intros c s I Ho Hr d Hd. pose proof (purge_inv _ _ I) as Ip. set (sp := purge c s) in *.
   cbn [start_begin snd] in Hd. destruct Hd as [<-|[]].
   unfold start_begin. constructor; cbn [fst d_ops d_srs d_ck d_peers stat a_ops a_srs ops srs hb now sto completed dep_ck]; auto.
-  - apply firstn_length_le, Ho.
-  - apply firstn_length_le, Hr.
-  - apply sorted_NoDup, sorted_firstn, (i_sops _ _ Ip).
-  - apply sorted_NoDup, sorted_firstn, (i_ssrs _ _ Ip).
-  - intros n Hn. apply In_firstn in Hn. split; [exact Hn|]. apply (purged_live_op c s n I Hn).
-  - intros n Hn. apply In_firstn in Hn. split; [exact Hn|]. apply (purged_live_sr c s n I Hn).
+  - apply (choose_ops_spec c sp (i_sops _ _ Ip) Ho).
+  - apply (choose_srs_spec c sp (i_ssrs _ _ Ip) Hr).
+  - apply sorted_NoDup, (choose_ops_spec c sp (i_sops _ _ Ip) Ho).
+  - apply sorted_NoDup, (choose_srs_spec c sp (i_ssrs _ _ Ip) Hr).
+  - intros n Hn. apply (choose_ops_spec c sp (i_sops _ _ Ip) Ho) in Hn. split; [exact Hn|]. apply (purged_live_op c s n I Hn).
+  - intros n Hn. apply (choose_srs_spec c sp (i_ssrs _ _ Ip) Hr) in Hn. split; [exact Hn|]. apply (purged_live_sr c s n I Hn).
   - intros Q1 Q2. cbn [pend]. rewrite Q1, Q2. cbn [andb]. destruct (pend (sto sp)); reflexivity.
 Qed.
 
@@ -718,6 +755,7 @@ Proof.
     destruct (completed (sto s) <? writing s) eqn:L; cbn.
     + apply N.ltb_lt in L. right. auto.
     + left. auto.
+  - cbn. left. auto.
 Qed.
 
 Lemma step_completed : forall c s o, Inv c s -> q_install_superseded (qk c) = false ->
@@ -1327,3 +1365,38 @@ Lemma redeploy_from_latest_refuted_install_superseded_proof :
   map o_published (snd (run (cfg_of current) init hist_slow_write)) = [0; 0; 0; 0; 0; 0; 0; 0; 0; 2; 0; 0; 0] /\
   deps current = [MkDep [1] [0] [2] true].
 Proof. vm_compute. repeat split; reflexivity. Qed.
+
+(* ---------------------------------------------------------------- every admissible choice of the assembly is possible *)
+Lemma pre_pick : forall c s o s1, pre c s o = Some s1 -> pick s1 = pick s.
+Proof.
+  intros c s o s1 H. destruct o; cbn [pre] in H; try discriminate; try (inversion H; subst; reflexivity).
+  destruct (stat s); try discriminate. destruct ok; inversion H; subst; reflexivity.
+Qed.
+
+(* The histories the theorems quantify over contain OChoose ops with arbitrary lists, so every theorem above holds
+   whichever admissible nodes NewAssembly picks. Conversely every admissible choice is realised: when the job, waiting,
+   evaluates its cluster and [co], [cr] are WorkerCount ascending registered live operators / runners, the deployment
+   goes to exactly them. *)
+Lemma any_admissible_choice_is_deployed_proof : forall c l co cr o s1,
+  let s0 := fst (step c (exec c l) (OChoose co cr)) in
+  pre c s0 o = Some s1 -> stat s1 = Init \/ stat s1 = Paused ->
+  admissible (wc c) (ops (purge c s1)) co = true -> admissible (wc c) (srs (purge c s1)) cr = true ->
+  o_deps (snd (step c s0 o)) = [MkDep co cr (map (fun _ => completed (sto s1)) co) true] /\
+  a_ops (fst (step c s0 o)) = co /\ a_srs (fst (step c s0 o)) = cr.
+Proof.
+  intros c l co cr o s1 s0 P E Ao Ar.
+  destruct (step_eval c s0 o s1 P) as [-> [-> _]].
+  assert (Pk : pick s1 = Some (co, cr)) by (rewrite (pre_pick c s0 o s1 P); reflexivity).
+  destruct (admissible_spec _ _ _ Ao) as [So [Lo Io]]. destruct (admissible_spec _ _ _ Ar) as [Sr [Lr Ir]].
+  assert (Ho : (wc c <= length (ops (purge c s1)))%nat).
+  { rewrite <- Lo. apply NoDup_incl_length; [apply sorted_NoDup, So | exact Io]. }
+  assert (Hr : (wc c <= length (srs (purge c s1)))%nat).
+  { rewrite <- Lr. apply NoDup_incl_length; [apply sorted_NoDup, Sr | exact Ir]. }
+  unfold evaluate. set (sp := purge c s1) in *. change (stat sp) with (stat s1).
+  assert (C : Nat.ltb (length (srs sp)) (wc c) || Nat.ltb (length (ops sp)) (wc c) = false).
+  { apply orb_false_iff. split; apply PeanoNat.Nat.ltb_ge; assumption. }
+  assert (X : start_begin c sp = start_begin c sp) by reflexivity.
+  assert (CO : choose_ops c sp = co) by (unfold choose_ops; change (pick sp) with (pick s1); rewrite Pk, Ao; reflexivity).
+  assert (CR : choose_srs c sp = cr) by (unfold choose_srs; change (pick sp) with (pick s1); rewrite Pk, Ar; reflexivity).
+  destruct E as [E|E]; rewrite E, C; unfold start_begin; rewrite CO, CR; cbn [fst snd a_ops a_srs]; auto.
+Qed.
